@@ -314,6 +314,25 @@ def std_matches(subject):
     ]
 
 
+def wide_matches(subject):
+    """Two matches with twelve groups each (two-digit group numbers, nine named groups so that a named ordinal
+    of 9 meets group number 12), every third group empty or not participating."""
+    n = len(subject)
+    out = []
+    for base in (0, n - 13):
+        grps = []
+        for g in range(12):
+            name = f"g{g}" if g % 4 != 1 else None
+            if g % 5 == 3:
+                grps.append((name, -1, -1))
+            elif g % 3 == 2:
+                grps.append((name, base + g, base + g))
+            else:
+                grps.append((name, base + g, base + g + 1))
+        out.append(AbsMatch(subject, base, base + 13, grps))
+    return out
+
+
 # a text witness made of the characters matching code could treat specially -----------------
 def rich_text(model: Model):
     """Line-ending and control characters, a non-character, an astral character, plus every short string constant
